@@ -63,6 +63,20 @@ class C11(OptCheck):
                 for argv in itertools.product(toks, repeat=n):
                     for env in envs:
                         yield case(d, env, [list(argv)]), "toggle-patterns"
+        # the K1 configuration (toggle a next to a toggle called no-a): outside the theorems' hypothesis no_clash, but the
+        # model follows the code there too — the token --no-a updates BOTH toggles, in name order
+        for rev_a, rev_n, sa, sn in itertools.product([False, True], [False, True], [None, "a"], [None, "n"]):
+            d1 = Decl([], [], [("a", sa, None, 0, rev_a), ("no-a", sn, None, 0, rev_n)], 0, False)
+            toks = ["--a", "--no-a", "--no-no-a"] + (["-a"] if sa else []) + (["-n"] if sn else []) + (["-an", "-na"] if sa and sn else [])
+            for n in range(1, 4):
+                for argv in itertools.product(toks, repeat=n):
+                    yield case(d1, [], [list(argv)]), "k1-configuration"
+        for nm in ["xray", "color", "b"]:
+            d1 = Decl([], [], [(nm, None, None, 0, True), ("no-" + nm, None, None, 0, False), ("v", "v", None, 0, False)], 0, False)
+            toks = ["--" + nm, "--no-" + nm, "-v"]
+            for n in range(1, 4):
+                for argv in itertools.product(toks, repeat=n):
+                    yield case(d1, [], [list(argv)]), "k1-configuration"
         d = Decl([], [], [("verbose", "v", "N_T", 0, False), ("color", None, "N_C", 1, True)], 0, False)
         words = set(TRUTHY + FALSY)
         for w in TRUTHY + FALSY:
